@@ -6,8 +6,8 @@
    instance identity at any level (what validation guarantees), lookup_path = the node addressed by an instance path
    (schema node + list keys / leaf-list value per step), expl o n = n is explicit or LYD_MERGE_DEFAULTS is given.
    _partial: instances of duplicate-instance lists (key-less lists, config false leaf-lists) have no instance path and
-   are matched by position among equal instances through the lyd_dup_inst cache; the statements below do not speak
-   about them (contains / keeps: they cannot be addressed; idempotent / empty: sources that contain them are excluded).
+   are matched by position among equal instances through the lyd_dup_inst cache; the _partial statements below do not
+   speak about them (contains / keeps: they cannot be addressed; idempotent: sources that contain them are excluded).
    For those only the correspondence run and the API oracle (oracles.MergeDup) give evidence.
    Independence of a duplicate from its original (no shared mutable state) is a heap property: the value model cannot
    express it (Merge.dup is the identity); it rests on the sanitizer-backed oracle alone. *)
@@ -56,13 +56,13 @@ Theorem C14_merge_idempotent_partial : forall sch o T S,
 Proof. exact merge_idempotent. Qed.
 Print Assumptions C14_merge_idempotent_partial.
 
-(* merging into an empty target yields the source (the C function marks the copies LYD_NEW unless
-   LYD_MERGE_WITH_FLAGS; that flag is not in the model). Partial: no top-level duplicate-instance list instances. *)
-Theorem C14_merge_empty_partial : forall sch o S,
-  Canon sch S -> UniqIds sch S -> Forall (fun x => dup_inst sch (d_sid x) = false) S ->
-  merge sch o [] S = S.
-Proof. exact merge_empty_ids. Qed.
-Print Assumptions C14_merge_empty_partial.
+(* merging into an empty target yields the source - any canonical source with unique identities, duplicate-instance
+   lists included (their equal instances are appended one by one because the lyd_dup_inst entry of the copies is used
+   up). The C function marks the copies LYD_NEW unless LYD_MERGE_WITH_FLAGS; that flag is not in the model. *)
+Theorem C14_merge_empty : forall sch o S,
+  Canon sch S -> UniqIds sch S -> merge sch o [] S = S.
+Proof. exact merge_empty. Qed.
+Print Assumptions C14_merge_empty.
 
 (* the source is an input of a function: it cannot change. Trivial in the model; on the C side the correspondence run
    compares the dump of the source before and after a non-destructive merge, and both merge modes (with and without
